@@ -18,6 +18,7 @@
 #include <math.h>
 
 #include <limits>
+#include <type_traits>
 #include <unordered_set>
 
 #include "verif.hpp"
@@ -414,6 +415,104 @@ void randoms(vf::Ctx& c)
     lab("inf / NaN argument or zero divisor", c_special);
 }
 
+
+// ------------------------------------------------------------------ mixed-argument calls: (float, int) (int, float) (double, int) (int, double)
+// etl declares only the (T, T) forms, so a mixed call resolves to one of them through the implicit conversions; the result
+// must be what glibc returns for the converted arguments IN THE TYPE ETL RETURNS (float for (float, int): etl does not
+// promote to double as std:: does - an API difference that is not part of the value property and is not asserted here).
+// The leg exists so that an added or specialised mixed overload cannot hide behind the (T, T) sweeps.
+template <typename T>
+auto cmp_plain(T /*x*/, T /*y*/, T e, T r, Out* o) -> int
+{
+    return cmpf<T>(e, r, o);
+}
+#define C16_MIXFN(name, CMP)                                                                                            \
+    auto mix_##name(int form, u64 xb, int n, Out* o) -> int                                                             \
+    {                                                                                                                   \
+        switch (form) {                                                                                                 \
+        case 0: {                                                                                                       \
+            float const x = u2f(static_cast<u32>(xb));                                                                  \
+            auto const e  = etl::name(x, n);                                                                            \
+            static_assert(std::is_same_v<decltype(e), float const>);                                                    \
+            return CMP<float>(x, static_cast<float>(n), e, Ora<float>::name(x, static_cast<float>(n)), o);             \
+        }                                                                                                               \
+        case 1: {                                                                                                       \
+            float const x = u2f(static_cast<u32>(xb));                                                                  \
+            auto const e  = etl::name(n, x);                                                                            \
+            static_assert(std::is_same_v<decltype(e), float const>);                                                    \
+            return CMP<float>(static_cast<float>(n), x, e, Ora<float>::name(static_cast<float>(n), x), o);             \
+        }                                                                                                               \
+        case 2: {                                                                                                       \
+            double const x = u2d(xb);                                                                                   \
+            auto const e   = etl::name(x, n);                                                                           \
+            static_assert(std::is_same_v<decltype(e), double const>);                                                   \
+            return CMP<double>(x, static_cast<double>(n), e, Ora<double>::name(x, static_cast<double>(n)), o);         \
+        }                                                                                                               \
+        default: {                                                                                                      \
+            double const x = u2d(xb);                                                                                   \
+            auto const e   = etl::name(n, x);                                                                           \
+            static_assert(std::is_same_v<decltype(e), double const>);                                                   \
+            return CMP<double>(static_cast<double>(n), x, e, Ora<double>::name(static_cast<double>(n), x), o);         \
+        }                                                                                                               \
+        }                                                                                                               \
+    }
+C16_MIXFN(fmod, cmp_plain)
+C16_MIXFN(remainder, cmp_plain)
+C16_MIXFN(copysign, cmp_plain)
+C16_MIXFN(fdim, cmp_plain)
+C16_MIXFN(nextafter, cmp_plain)
+C16_MIXFN(fmin, cmp_minmax)
+C16_MIXFN(fmax, cmp_minmax)
+struct MixEntry {
+    char const* name; // reported as "mix.<name>"
+    char const* casename;
+    int (*run)(int, u64, int, Out*);
+};
+MixEntry const k_mix[] = {{"fmod", "mix.fmod", mix_fmod}, {"remainder", "mix.remainder", mix_remainder}, {"copysign", "mix.copysign", mix_copysign}, {"fdim", "mix.fdim", mix_fdim},
+    {"nextafter", "mix.nextafter", mix_nextafter}, {"fmin", "mix.fmin", mix_fmin}, {"fmax", "mix.fmax", mix_fmax}};
+char const* const k_forms[] = {"f32,int", "int,f32", "f64,int", "int,f64"};
+
+auto mix_case(MixEntry const& m, int form, u64 xb, int n, bool run_mode) -> std::string
+{
+    Case k{m.casename, k_forms[form], 2, xb, static_cast<u64>(static_cast<std::uint32_t>(n)), 0};
+    vf::Flight<Case> fl(m.name, k);
+    Out o;
+    int const r = m.run(form, xb, n, &o);
+    std::string d;
+    if (r == 2) {
+        std::string const xs = form < 2 ? show_arg(u2f(static_cast<u32>(xb))) : show_arg(u2d(xb));
+        d = std::string(m.name) + "(" + ((form & 1) == 0 ? xs + ", int " + std::to_string(n) : "int " + std::to_string(n) + ", " + xs) + "): etl " + o.etl + ", libm on the converted arguments " + o.ref;
+    }
+    if (run_mode) {
+        if (r != 0) { vf::eval(m.name); }
+        if (r == 2) { vf::mismatch(m.name, k, d); }
+    }
+    return d;
+}
+
+void mixed(vf::Ctx& c)
+{
+    int const ns[] = {0, 1, -1, 2, -2, 3, -3, 7, -7, 10, 100, -1000, 16777217, -16777217, 2147483647, -2147483647 - 1};
+    auto const bf = boundary<float>();
+    auto const bd = boundary<double>();
+    std::uint64_t idx = 0, cases = 0;
+    for (auto const& m : k_mix) {
+        for (int form = 0; form < 4; ++form) {
+            std::size_t const nb = form < 2 ? bf.size() : bd.size();
+            for (std::size_t i = 0; i < nb; i += 3) {
+                if (!c.mine(idx++)) { continue; }
+                u64 const xb = form < 2 ? static_cast<u64>(bits(bf[i])) : bits(bd[i]);
+                for (int n : ns) {
+                    mix_case(m, form, xb, n, true);
+                    ++cases;
+                }
+            }
+        }
+    }
+    vf::nontrivial_count(cases);
+    vf::count("mixed-argument calls (T,int)/(int,T)", cases);
+}
+
 auto replay_one(Parsed const& p, auto tag) -> std::string
 {
     using T = decltype(tag);
@@ -439,12 +538,23 @@ void vf_run(vf::Ctx& c)
     grid<double>(c);
     randoms<float>(c);
     randoms<double>(c);
+    mixed(c);
     vf::sample("remainder", [] { return std::string("remainder f32 0x40200000 0x3f800000  (= remainder(2.5f, 1.0f), a half-way quotient; every listed function is called on every pair)"); });
 }
 
 std::string vf_replay(std::string const& /*sub*/, std::string const& cs)
 {
     auto const p = parse_case(cs);
+    if (p.fn.rfind("mix.", 0) == 0) {
+        for (auto const& m : k_mix) {
+            if (p.fn == m.casename) {
+                for (int form = 0; form < 4; ++form) {
+                    if (p.ty == k_forms[form]) { return mix_case(m, form, p.a, static_cast<int>(static_cast<std::uint32_t>(p.b)), false); }
+                }
+            }
+        }
+        return "replay: unknown mixed case " + cs;
+    }
     if (p.ty == "f32") { return replay_one(p, float{}); }
     if (p.ty == "f64") { return replay_one(p, double{}); }
     return "replay: unknown type " + p.ty;
